@@ -218,21 +218,23 @@ def numeric_forms(rng, tier, info):
             cases_ = rng.sample(cases_, min(len(cases_), 18))
         for pt, it in cases_:
             line = "bip85x %s %s %s %s" % (spec, app, pt, it)
-            got = impl.run(line)
-            n += 1
-            if not got.startswith("ok "):
-                continue
-            pv, iv = impl.pyvalue(pt), impl.pyvalue(it)
-            ok_int = []
-            for v in (pv, iv):
-                try:
-                    ok_int.append(not isinstance(v, (str, bool)) and v == int(v))
-                except (TypeError, ValueError):
-                    ok_int.append(False)
-            want = indep(app, k, chain, int(pv), int(iv)) if all(ok_int) else None
-            if want is None or unstr(got[3:]) != want:
-                yield (line, "BIP85 %s answered for a %s that is not an allowed integer (param %r, index %r) instead of "
-                             "refusing: %s" % (app, "parameter/index", pv, iv, unstr(got[3:])[:40]))
+            # (asked twice: with keyword arguments, and — impl.run_alt — with positional ones)
+            for runner, how in ((impl.run, ""), (impl.run_alt, ", arguments passed positionally")):
+                got = runner(line)
+                n += 1
+                if not got.startswith("ok "):
+                    continue
+                pv, iv = impl.pyvalue(pt), impl.pyvalue(it)
+                ok_int = []
+                for v in (pv, iv):
+                    try:
+                        ok_int.append(not isinstance(v, (str, bool)) and v == int(v))
+                    except (TypeError, ValueError):
+                        ok_int.append(False)
+                want = indep(app, k, chain, int(pv), int(iv)) if all(ok_int) else None
+                if want is None or unstr(got[3:]) != want:
+                    yield (line, "BIP85 %s answered for a %s that is not an allowed integer (param %r, index %r%s) instead "
+                                 "of refusing: %s" % (app, "parameter/index", pv, iv, how, unstr(got[3:])[:40]))
     info["non_integer_parameter_cases"] = n
 
 
